@@ -618,6 +618,8 @@ func runC09(c *Check) {
 	c.Rule("R9.5", "store accessed only after Validate success; ResponseSize only after Size success")
 	c.Rule("R9.6", "validation wrapper overrides every index-bearing accessor method with a bounds gate")
 	c.Rule("R9.7", "explicit panics reachable from the stream handler (under RecoveryMiddleware)")
+	// the serving path reads every block through the proofs-caching wrapper
+	c05ProofsCache(c, "R9.8")
 	h := p.Func("share/shwap/p2p/shrex", "Server", "handleDataRequest")
 	if h == nil {
 		c.Unresolved("R9.1", "handleDataRequest not found")
